@@ -31,8 +31,7 @@ def run_sim(case):
     dispatch.install()
     spec = case.get("sched") or {"kind": "dev"}
     nops = sum(len(w) for w in case["writers"]) + sum(len(r) for r in case["readers"])
-    gran_op = spec.get("gran", "line") == "op"
-    sched = Sched(schedules.make_chooser(spec), SUT_FILES, max_steps=(20000 + 3000 * nops) * (3 if gran_op else 1), opcodes=gran_op)
+    sched = Sched(schedules.make_chooser(spec), SUT_FILES, max_steps=20000 + 3000 * nops)
     ctxs = prims.SimContext()
     out = {"reads": [], "store_results": [], "final": None, "exc": None}
     completed = SharedDict()     # id -> text, recorded by the writer when its store has returned
